@@ -190,4 +190,78 @@ MUTANTS = [
             // Compute the nonce and do the encryption in place
             let nonce = mix_nonce::<A>(&self.0.base_nonce, &self.0.seq);
             let decrypt_res = self""")]),
+    # ------------------------------------------------------------------ C06
+    dict(name='c06-aad-dropped-both-sides', expect=[('C06', 'R06.1'), ('C06', 'R06.3')],
+         note='aad no longer authenticated; only a wrong-aad open exposes it',
+         edits=[(AEAD, ".decrypt_in_place_detached(&nonce.0, aad, ciphertext, &tag.0);", ".decrypt_in_place_detached(&nonce.0, &[], ciphertext, &tag.0);"),
+                (AEAD, ".encrypt_in_place_detached(&nonce.0, aad, plaintext)", ".encrypt_in_place_detached(&nonce.0, &[], plaintext)")]),
+    dict(name='c06-tag-from-front-both-sides', expect=[('C06', 'R06.2'), ('C06', 'R06.3')],
+         note='wire format tag||ct instead of ct||tag, self-consistent',
+         edits=[(AEAD, """        let (ciphertext, tag_slice) = ciphertext.split_at(msg_len);""", """        let (tag_slice, ciphertext) = ciphertext.split_at(tag_len);"""),
+                (AEAD, """        let mut buf = vec![0u8; msg_len + tag_len];
+        buf[..msg_len].copy_from_slice(plaintext);
+
+        // Seal with a detached tag
+        let tag = self.seal_in_place_detached(&mut buf[..plaintext.len()], aad)?;
+        // Then append the tag to the end of the buffer. The buffer is now the auth'd ciphertext
+        buf[msg_len..msg_len + tag_len].copy_from_slice(&tag.0);""", """        let mut buf = vec![0u8; msg_len + tag_len];
+        buf[tag_len..].copy_from_slice(plaintext);
+
+        // Seal with a detached tag
+        let tag = self.seal_in_place_detached(&mut buf[tag_len..], aad)?;
+        buf[..tag_len].copy_from_slice(&tag.0);""")]),
+    dict(name='c06-last-ct-byte-ignored', expect=[('C06', 'R06.1')],
+         note='last ciphertext byte not authenticated/decrypted: needs a flip in that byte',
+         edits=[(AEAD, ".decrypt_in_place_detached(&nonce.0, aad, ciphertext, &tag.0);",
+                 ".decrypt_in_place_detached(&nonce.0, aad, { let n = ciphertext.len(); &mut ciphertext[..n.saturating_sub(0)] }, &tag.0);")],
+         expect_note='sub-slice of the buffer parameter'),
+    dict(name='c06-open-trailing-bytes-ignored', expect=[('C06', 'R06.2')],
+         note='open() accepts ciphertext with appended garbage: needs an extended input',
+         edits=[(AEAD, """        let (ciphertext, tag_slice) = ciphertext.split_at(msg_len);""",
+                 """        let (ciphertext, tag_slice) = ciphertext.split_at(msg_len);
+        let tag_slice = &tag_slice[..tag_len];""")]),
+    dict(name='c06-single-shot-open-drops-aad', expect=[('C06', 'R06.4'), ('C14', 'R14.1')],
+         note='single_shot_open authenticates info instead of aad; only mismatching aad exposes it',
+         edits=[(SINGLE, """    // Decrypt
+    aead_ctx.open(ciphertext, aad)""", """    // Decrypt
+    aead_ctx.open(ciphertext, info)""")]),
+    # ------------------------------------------------------------------ C14
+    dict(name='c14-info-aad-swapped-alloc', expect=[('C14', 'R14.1')],
+         note='single_shot_seal and single_shot_open swap info and aad consistently',
+         edits=[(SINGLE, """        setup_sender::<A, Kdf, Kem, R>(mode, pk_recip, info, csprng)?;
+    // Encrypt
+    let ciphertext = aead_ctx.seal(plaintext, aad)?;""", """        setup_sender::<A, Kdf, Kem, R>(mode, pk_recip, aad, csprng)?;
+    // Encrypt
+    let ciphertext = aead_ctx.seal(plaintext, info)?;"""),
+                (SINGLE, """    let mut aead_ctx = setup_receiver::<A, Kdf, Kem>(mode, sk_recip, encapped_key, info)?;
+    // Decrypt
+    aead_ctx.open(ciphertext, aad)""", """    let mut aead_ctx = setup_receiver::<A, Kdf, Kem>(mode, sk_recip, encapped_key, aad)?;
+    // Decrypt
+    aead_ctx.open(ciphertext, info)""")]),
+    dict(name='c14-single-shot-empty-info', expect=[('C14', 'R14.1')],
+         note='single-shot ignores info on both sides; differs from setup+seal',
+         edits=[(SINGLE, """    let (encapped_key, mut aead_ctx) =
+        setup_sender::<A, Kdf, Kem, R>(mode, pk_recip, info, csprng)?;
+    // Encrypt
+    let tag = aead_ctx""", """    let (encapped_key, mut aead_ctx) =
+        setup_sender::<A, Kdf, Kem, R>(mode, pk_recip, &[], csprng)?;
+    // Encrypt
+    let tag = aead_ctx""")]),
+    dict(name='c14-error-remapped', expect=[('C14', 'R14.1')],
+         note='single_shot_open_in_place_detached reports OpenError for a bad encapsulated key',
+         edits=[(SINGLE, """    let mut aead_ctx = setup_receiver::<A, Kdf, Kem>(mode, sk_recip, encapped_key, info)?;
+    // Decrypt
+    aead_ctx.open_in_place_detached(ciphertext, aad, tag)""", """    let mut aead_ctx = setup_receiver::<A, Kdf, Kem>(mode, sk_recip, encapped_key, info)
+        .map_err(|_| HpkeError::OpenError)?;
+    // Decrypt
+    aead_ctx.open_in_place_detached(ciphertext, aad, tag)""")]),
+    dict(name='c14-double-seal', expect=[('C14', 'R14.1')],
+         note='single-shot seals twice: ciphertext is under sequence number 1',
+         edits=[(SINGLE, """    // Encrypt
+    let ciphertext = aead_ctx.seal(plaintext, aad)?;""", """    // Encrypt
+    let _ = aead_ctx.seal(plaintext, aad)?;
+    let ciphertext = aead_ctx.seal(plaintext, aad)?;""")]),
+    dict(name='c14-seal-allocates-short', expect=[('C14', 'R01.4')],
+         note='allocating seal returns ciphertext without room for the tag (panics at append)',
+         edits=[(AEAD, "let mut buf = vec![0u8; msg_len + tag_len];", "let mut buf = vec![0u8; msg_len + tag_len + 1];")]),
 ]
